@@ -12,6 +12,7 @@ import (
 	"os"
 	"path/filepath"
 	"strconv"
+	"strings"
 	"sync"
 	"sync/atomic"
 
@@ -144,9 +145,10 @@ func main() {
 		T(p(0, 0, 0), p(1, 0, 0), p(0, 1, 0)),                                // exact duplicate of the first
 		T(p(-1.5, -2.25, -3), p(-1, -1, -1), p(-0.00001, 12345.678912, 0.1)), // negative, tiny, large
 		T(p(0.12344, 0.12346, 0.5), p(0.33333333, 2.0/3, 16777217), p(5, 5, 5)),
-		T(p(2, 2, 2), p(2+5e-7, 2, 2), p(2, 3, 2)),     // sliver: two corners closer than 1e-6
-		T(p(1e-5, 0, 0), p(0, 1e-5, 0), p(0, 0, 1e-5)), // tiny but non-degenerate
-		T(p(0, 1, 0), p(1, 0, 0), p(0, 0, 0)),          // the first one with reversed winding
+		T(p(0.00007, 1, 1), p(1, -0.00008, 2), p(3, 1, 0.00005001)), // between half a unit and one unit of the fourth decimal
+		T(p(2, 2, 2), p(2+5e-7, 2, 2), p(2, 3, 2)),                  // sliver: two corners closer than 1e-6
+		T(p(1e-5, 0, 0), p(0, 1e-5, 0), p(0, 0, 1e-5)),              // tiny but non-degenerate
+		T(p(0, 1, 0), p(1, 0, 0), p(0, 0, 0)),                       // the first one with reversed winding
 	}
 	l3 := lists(menu3, vlib.Pick(c, 3, 4))
 	chunk3 := map[int][]int{}
@@ -204,9 +206,11 @@ func main() {
 				}
 				g := vs[idx[q]]
 				w := [3]float32{round4f32(t[q].X), round4f32(t[q].Y), round4f32(t[q].Z)}
+				x32 := [3]float32{float32(t[q].X), float32(t[q].Y), float32(t[q].Z)}
 				for a := 0; a < 3; a++ {
-					// corners closer than the de-duplication grid may be merged: allow 1.5e-4
-					if math.Abs(float64(g[a])-float64(w[a])) > 1.5e-4*(1+math.Abs(float64(w[a]))*1e-3) {
+					// the file holds four decimals of the float32 input: at most half a unit of the fourth decimal
+					// away from it, plus the 1e-6 grid on which corners may have been merged
+					if math.Abs(float64(g[a])-float64(x32[a])) > 5e-5+2e-6+math.Abs(float64(x32[a]))*1e-7 {
 						c.Violation("3mf|vertex-value-or-winding", fmt.Sprintf("triangle %d corner %d is %v in the file, input %v (expected %v)", k, q, g, t[q], w), desc)
 						return
 					}
@@ -374,6 +378,123 @@ func main() {
 			atomic.AddInt64(&trans, 1)
 		}
 	})
+	// ---------------- a longer file on the same path first (every writer must truncate) ----------------
+	{
+		var longT, shortT []*sdf.Triangle3
+		var longL, shortL []*sdf.Line2
+		for k := 0; k < 135; k++ {
+			f := float64(k)
+			longT = append(longT, T(p(f, 0, 0), p(f+0.5, 1, 0), p(f, 0, 1)))
+			longL = append(longL, L(f, 0, f+0.5, 1))
+		}
+		shortT, shortL = longT[:2], longL[:2]
+		hp := filepath.Join(work, "history")
+		type hw struct {
+			name  string
+			write func(long bool) error
+			count func() (int, error)
+		}
+		for _, h := range []hw{
+			{"3mf|To3MF", func(long bool) error {
+				if long {
+					render.To3MF(dummy3{}, hp+".3mf", scripted3{longT, nil})
+				} else {
+					render.To3MF(dummy3{}, hp+".3mf", scripted3{shortT, nil})
+				}
+				return nil
+			}, func() (int, error) {
+				r, err := go3mf.OpenReader(hp + ".3mf")
+				if err != nil {
+					return 0, err
+				}
+				defer r.Close()
+				var m go3mf.Model
+				if err := r.Decode(&m); err != nil {
+					return 0, err
+				}
+				n := 0
+				for _, o := range m.Resources.Objects {
+					if o.Mesh != nil {
+						n += len(o.Mesh.Triangles.Triangle)
+					}
+				}
+				return n, nil
+			}},
+			{"dxf|ToDXF", func(long bool) error {
+				if long {
+					render.ToDXF(dummy2{}, hp+".dxf", scripted2{longL, nil})
+				} else {
+					render.ToDXF(dummy2{}, hp+".dxf", scripted2{shortL, nil})
+				}
+				return nil
+			}, nil},
+			{"dxf|SaveDXF", func(long bool) error {
+				if long {
+					return render.SaveDXF(hp+".dxf", longL)
+				}
+				return render.SaveDXF(hp+".dxf", shortL)
+			}, nil},
+			{"svg|ToSVG", func(long bool) error {
+				if long {
+					render.ToSVG(dummy2{}, hp+".svg", scripted2{longL, nil})
+				} else {
+					render.ToSVG(dummy2{}, hp+".svg", scripted2{shortL, nil})
+				}
+				return nil
+			}, nil},
+			{"svg|SaveSVG", func(long bool) error {
+				if long {
+					return render.SaveSVG(hp+".svg", "fill:none;stroke:black;stroke-width:0.1", longL)
+				}
+				return render.SaveSVG(hp+".svg", "fill:none;stroke:black;stroke-width:0.1", shortL)
+			}, nil},
+		} {
+			os.Remove(hp + ".3mf")
+			os.Remove(hp + ".dxf")
+			os.Remove(hp + ".svg")
+			states++
+			dxfMu.Lock()
+			e1, e2 := h.write(true), h.write(false)
+			dxfMu.Unlock()
+			desc := map[string]any{"writer": h.name, "history": "135 items, then 2 items, to the same path"}
+			if e1 != nil || e2 != nil {
+				c.Violation(h.name+"|history-on-one-path|error", fmt.Sprint(e1, e2), desc)
+				continue
+			}
+			n, err := 0, error(nil)
+			switch {
+			case h.count != nil:
+				n, err = h.count()
+			case strings.HasPrefix(h.name, "dxf"):
+				dxfMu.Lock()
+				d, e := dxf.FromFile(hp + ".dxf")
+				dxfMu.Unlock()
+				err = e
+				if e == nil {
+					n = len(d.Entities())
+				}
+			default:
+				b, e := os.ReadFile(hp + ".svg")
+				err = e
+				var doc svgDoc
+				if e == nil {
+					if e2 := xml.Unmarshal(b, &doc); e2 != nil {
+						err = e2
+					}
+					if extra := strings.Count(string(b), "</svg>"); extra != 1 && err == nil {
+						err = fmt.Errorf("%d closing </svg> tags in the file", extra)
+					}
+					n = len(doc.Lines)
+				}
+			}
+			trans++
+			if err != nil {
+				c.Violation(h.name+"|history-on-one-path|unreadable-or-malformed", fmt.Sprintf("after writing 135 items and then 2 items to the same path: %v", err), desc)
+			} else if n != 2 {
+				c.Violation(h.name+"|history-on-one-path|item-count", fmt.Sprintf("after writing 135 items and then 2 items to the same path the file holds %d", n), desc)
+			}
+		}
+	}
 	samples = append(samples, map[string]any{"format": "dxf+svg", "lists": len(l2), "writers": "streaming and batch", "menu": menu2})
 	_ = r2
 	c.Guard("decoded vertices / lines compared > 5000 (files were written and read back by the independent readers)", trans > 5000, fmt.Sprint(trans))
